@@ -14,6 +14,7 @@ import (
 
 var certHosts = []string{
 	"origin.test", "Origin.TEST", "xn--bcher-kva.example", "a-rather-long-label-aaaaaaaaaaaaaaaaaaaaaaaaaaaaaaaaaaaaaaaaaaaaaa.example.org",
+	"dot.origin.test.", "origin.test.", // the root label written out: the same host as without it
 	"10.1.2.3", "192.0.2.255", "[2001:db8::1]", "[::1]", "localhost", "sub.domain.origin.test", "1.example", "a.b.c.d.e.f.example",
 }
 var certPorts = []string{"443", "443", "8443", "1", "65535"}
@@ -51,6 +52,11 @@ func genCertsPlan(r *rand.Rand) *ProxyPlan {
 		p.Clients = [][]PReq{walk}
 		p.Pol = zzsim.Policy{Kind: "sticky", SwitchP: 0.02, Mute: "R6,R7", MaxSteps: 400000}
 		return p
+	}
+	for _, h := range append([]string{}, hosts...) {
+		if name, port, ok := strings.Cut(h, ".:"); ok {
+			hosts = append(hosts, name+":"+port) // the same host without the dot
+		}
 	}
 	// one client walks through time; optionally a burst of first tunnels at some instant
 	var walk []PReq
